@@ -372,3 +372,12 @@ claim(
     "abstract interpretation over a stencil domain with non-holomorphic operations kept opaque; degree / coefficient-field analysis; who-may-branch rule on the syntax tree; decision table of the allocation prefix",
     "DESIGN.md §6 (moved from not-applicable)",
 )
+
+claim(
+    "C25",
+    "other",
+    "Narrow: termination and the existence of a valid touch while the loop runs are not decided (an argmax over an empty mask would pick pixel 0). Decided are the premises under which the loop keeps the two colours disjoint and the output has the stated form: BrushConstraint2D._generator, interpreted over a set-algebra domain (arrays as formulas over the touch sets, dilation an opaque monotone operator, each of the five branch paths taken in turn), returns D(T_s*) of the final solid touches, starts from no touches and continues exactly while some pixel is in neither D(T_s) nor D(T_v); on every path no touch is removed, every added touch lies in the validity mask of its colour (not yet a touch, not in D of the other colour's pixels), the single-touch paths return the other colour unchanged, and on the many-touch path added solid touches lie outside D(possible-void U existing-void pixels) while added void touches are among the generators of the possible-void pixels (and symmetrically); dilate_jax is the centred dilation by the brush as given (orientation checked with an asymmetric kernel); circular_brush for eleven diameters has odd size, contains its centre, equals the closed disc and is point-symmetric. With the hand lemma (D monotone; for a point-symmetric brush t not in D(P) iff footprint(t) misses P) these give: D(T_s) and D(T_v) stay disjoint, so on exit solid = D(T_s*) and void = D(T_v*).",
+    TB + "; set algebra with opaque dilation, implications by truth table; lemma on dilation by a point-symmetric brush (DESIGN.md)",
+    "abstract interpretation of the loop body over a set-algebra domain with scripted branch enumeration; propositional decision of inclusion obligations; concrete-kernel interpretation of the dilation and of the brush constructor",
+    "DESIGN.md §6 (moved from not-applicable)",
+)
